@@ -896,6 +896,11 @@ impl World {
                     same_block && other.capacity() > 0 && h.len() > 0 && h.ptr() + h.len() == other.as_ptr() as usize
                 };
                 let self_empty = pre_len(self, s) == 0;
+                // an emptied half that still sits in the same allocation as the other half
+                let empty_sibling = {
+                    let h = &self.slots[s].as_ref().unwrap().h;
+                    self_empty && h.cap() > 0 && other.len() > 0 && oracle::find_live(h.ptr()).is_some() && oracle::find_live(h.ptr()) == oracle::find_live(other.as_ptr() as usize)
+                };
                 let other_ptr = other.as_ptr() as usize;
                 let other_len = other.len();
                 let r = self.call(move |w| w.m(s).unsplit(other));
@@ -910,9 +915,15 @@ impl World {
                                 if h.ptr() != pre[s].ptr {
                                     self.vio("C07", "unsplit-address", format!("unsplit of adjacent halves moved the bytes: {:#x} -> {:#x}", pre[s].ptr, h.ptr()));
                                 }
-                            } else if self_empty && other_len > 0 && h.ptr() != other_ptr {
-                                // an empty self adopts other (documented: "if self is empty, other is moved in")
+                            } else if empty_sibling {
+                                // halves of one allocation, the receiving one emptied: the result holds exactly other's
+                                // bytes, which must stay where they are (no copy into the receiver's old capacity)
+                                zero_copy_listed = true;
+                                if h.ptr() != other_ptr {
+                                    self.vio("C07", "unsplit-empty-half-address", format!("unsplit into an emptied half of the same allocation moved the bytes: they were at {:#x}, the result starts at {:#x}", other_ptr, h.ptr()));
+                                }
                             }
+                            let _ = other_len;
                         }
                     }
                     Err(()) => panicked = true,
@@ -988,11 +999,14 @@ impl World {
             K::MPutBytes => {
                 // BufMut::put_bytes: reserve + write_bytes + advance_mut
                 let n = op.a;
+                expect_panic = pre_len(self, s).checked_add(n).map_or(true, |t| t > ISIZE_MAX);
                 let r = self.call(|w| w.m(s).put_bytes(0xB7, n));
                 match r {
                     Ok(()) => {
-                        let l = self.model(s).len();
-                        self.model(s).resize(l + n, 0xB7);
+                        if !expect_panic {
+                            let l = self.model(s).len();
+                            self.model(s).resize(l + n, 0xB7);
+                        }
                     }
                     Err(()) => panicked = true,
                 }
